@@ -52,6 +52,7 @@ def f_single(name: str, *args, **kwargs):
 
 LATENCY_BOUND_S = 120.0  # a failure must end the run within this many virtual seconds, whatever else is running
 SLOW_S = 300.0  # duration of the long task of the *slow jobs, in (virtual) seconds
+TERM_SNAP: list = []  # segments existing when a SIGTERM was delivered
 FIRED_AT: list = []  # virtual instant at which the injected fault fired
 
 
@@ -128,18 +129,21 @@ def execute(cfg: dict, fault: dict | None, deviations: dict | None = None, secon
     PLAN.clear()
     del FIRED[:]
     del FIRED_AT[:]
+    del TERM_SNAP[:]
     fired_step = [None]
 
     def on_cluster(cl):
         CLUSTER[0] = cl
-        kills = [f for f in (fault, second_kill) if f and f.get("type", "kill-proc") == "kill-proc"]
+        kills = [f for f in (fault, second_kill) if f and f.get("type", "kill-proc") in ("kill-proc", "term-proc")]
         if kills:
             def hook(step, p, cl=cl):
                 for f in kills:
                     if step == f["step"]:
                         victims = [q for q in cl.sched.procs if q.name == f["proc"] and q.started and not q.dead and not q.killed]
                         if victims:
-                            cl.sched.kill(victims[0])
+                            if f.get("type") == "term-proc":
+                                TERM_SNAP[:] = [set(cl.ns.segments)]  # what exists when the signal arrives
+                            (cl.sched.term if f.get("type") == "term-proc" else cl.sched.kill)(victims[0])
                             if fired_step[0] is None:
                                 fired_step[0] = step
                                 FIRED_AT.append(cl.sched.now_ns)
@@ -195,6 +199,7 @@ def _record(r, job, cfg, fired_step, ds_gets):
         "procs": [(p.name, p.kind) for p in cl.sched.procs], "run_started_step": r.get("run_started_step"),
         "choice_widths": list(r.get("choice_widths", [])),
         "wrong": None, "ds_gets": dict(ds_gets),
+        "left_created_after_signal": (sorted(set(r["segments_left"]) - TERM_SNAP[0]) if TERM_SNAP else None),
         "latency_s": None if not FIRED_AT or r.get("ended_at") is None else round((r["ended_at"] - FIRED_AT[0]) / 1e9, 1),
     }
     if r["outputs"] is not None:
@@ -216,6 +221,8 @@ def judge(cfg: dict, fault: dict | None, rec: dict) -> list:
         victim = f"task body {fault['kind']}" + (" before any output" if fault["point"] == 0 else " after some/all outputs")
     elif fault["type"] == "dsread":
         victim = "data server cannot read a dataset it is asked to send"
+    elif fault["type"] == "term-proc":
+        victim = f"{fault['proc'].split(':')[0]} process terminated (SIGTERM)"
     else:
         victim = f"{fault['proc'].split(':')[0]} process killed"
     if rec["phase1"] != "done":
@@ -232,7 +239,12 @@ def judge(cfg: dict, fault: dict | None, rec: dict) -> list:
         kinds = sorted({k for (_, k) in rec["alive_after"]}) or ["executor"]
         out.append(({"monitor": "processes_left_behind", "cause": f"{victim}: {'/'.join(kinds)} still alive 30 virtual seconds after the run ended"}, f"{rp}: alive {rec['alive_after']} phase2 {rec['phase2']}", rp))
     elif rec["segments_left"]:
-        out.append(({"monitor": "segments_left_behind", "cause": f"{victim}: shared-memory segments left behind"}, f"{rp}: {rec['segments_left']}", rp))
+        cause = f"{victim}: shared-memory segments left behind"
+        if rec.get("left_created_after_signal") is not None and sorted(rec["segments_left"]) == rec["left_created_after_signal"]:
+            # nothing that existed when the signal arrived is left: only segments a client created afterwards, for an
+            # allocation the server had already granted
+            cause += " (only segments of allocations in progress at the signal, created by the client after the server's clean-up)"
+        out.append(({"monitor": "segments_left_behind", "cause": cause}, f"{rp}: {rec['segments_left']}", rp))
     return out
 
 
@@ -247,6 +259,10 @@ def config_cases(cfg: dict) -> list:
         # the property speaks about points of a *run*: kills start once every executor registered and run() began
         for s in range(base["run_started_step"] + 1, base["steps"] + 1, stride):
             faults.append({"type": "kill-proc", "proc": name, "step": s})
+    for name in [n for (n, k) in base["procs"] if k == "shm"]:
+        # SIGTERM instead of SIGKILL: the shm server has a handler (clean up, leave), so nothing may be left behind
+        for s in range(base["run_started_step"] + 1, base["steps"] + 1, max(stride, 3)):
+            faults.append({"type": "term-proc", "proc": name, "step": s})
     for name, n in sorted(base.get("ds_gets", {}).items()):
         for k in range(n):
             faults.append({"type": "dsread", "proc": name, "nth": k})
@@ -293,7 +309,7 @@ def run(ctx):
     ctx.coverage["real_process_validations"] = real
     ctx.coverage.update(
         evaluations=evaluations, distinct_nontrivial=len(fired), exhaustive=all("stride" not in c for c in cfgs), outcomes=histogram,
-        rule="per (job, cluster shape): every task x every body point (before the first output, after k of N outputs, after the last) x {raise, sys.exit(3), sys.exit() with status 0, kill}; every helper process (worker, data server, shm server) x every scheduler step of the fault-free default schedule (stride given per config); every read a data server performs of a dataset it is asked to send, failing. Non-trivial = the fault actually fired before the run ended (distinct by victim x point x kind)",
+        rule="per (job, cluster shape): every task x every body point (before the first output, after k of N outputs, after the last) x {raise, sys.exit(3), sys.exit() with status 0, kill}; every helper process (worker, data server, shm server) x every scheduler step of the fault-free default schedule (stride given per config); every read a data server performs of a dataset it is asked to send, failing; SIGTERM to the shm server at every third step. Non-trivial = the fault actually fired before the run ended (distinct by victim x point x kind)",
         configs=cfgs, horizon_virtual_s=HORIZON_S,
     )
     ctx.assume("default schedule (first ready process, timers only when nothing else is enabled); one fault per execution",
